@@ -45,7 +45,7 @@ func (ref Reference) CompletionAtPos(ctx context.Context, pos hcl.Pos) []lang.Ca
 		}
 		candidates := make([]lang.Candidate, 0)
 		ref.pathCtx.ReferenceTargets.MatchWalk(ctx, ref.cons, "", outerBodyRng, editRng, func(target reference.Target) error {
-			address := target.Address(ctx, editRng.Start).String()
+			address := referenceCandidateAddress(ctx, target, editRng).String()
 
 			candidates = append(candidates, lang.Candidate{
 				Label:       address,
@@ -97,7 +97,7 @@ func (ref Reference) CompletionAtPos(ctx context.Context, pos hcl.Pos) []lang.Ca
 
 	candidates := make([]lang.Candidate, 0)
 	ref.pathCtx.ReferenceTargets.MatchWalk(ctx, ref.cons, prefix, outerBodyRng, editRng, func(target reference.Target) error {
-		address := target.Address(ctx, editRng.Start).String()
+		address := referenceCandidateAddress(ctx, target, editRng).String()
 
 		candidates = append(candidates, lang.Candidate{
 			Label:       address,
@@ -113,4 +113,18 @@ func (ref Reference) CompletionAtPos(ctx context.Context, pos hcl.Pos) []lang.Ca
 		return nil
 	})
 	return candidates
+}
+
+// referenceCandidateAddress returns the address under which the target
+// is offered at the given edit range.
+func referenceCandidateAddress(ctx context.Context, target reference.Target, editRng hcl.Range) lang.Address {
+	if target.TargetableFromRangePtr != nil &&
+		target.TargetableFromRangePtr.Filename != editRng.Filename &&
+		len(target.Addr) > 0 {
+		// The local address (e.g. self.*) is only valid within the range
+		// the target is targetable from. That range is in another file,
+		// Target.Address() only compares positions though.
+		return target.Addr
+	}
+	return target.Address(ctx, editRng.Start)
 }
